@@ -58,6 +58,7 @@ def client_api():
     fb.message("WriteBookRequest", [("name", "string")])
     fb.message("WriteMetadata", [("progress", "int32")])
     fb.message("RouteRequest", [("table_name", "string"), ("app_profile_id", "string"), ("book", "msg:Book")])
+    fb.message("Empty", [("etag", "string"), ("revision", "int32")])     # NOT google.protobuf.Empty
     s = fb.service("Library")
     E = "google.protobuf.Empty"
     fb.method(s, "GetBook", "GetBookRequest", "Book", http=("get", "/v1/{name=shelves/*/books/*}"), sigs=["name"])
@@ -82,6 +83,7 @@ def client_api():
     fb.method(s, "NoSig", "GetBookRequest", "Book", http=("get", "/v1/{name=shelves/*}/nosig"))
     # requests from a dependency package
     fb.method(s, "Ping", E, "Book", http=("get", "/v1/ping"))
+    fb.method(s, "TouchBook", "GetBookRequest", "Empty", http=("post", "/v1/{name=shelves/*/books/*}:touch", "*"))
     fb.method(s, "CheckOperation", "google.longrunning.GetOperationRequest", "Book",
               http=("get", "/v1/{name=operations/*}:check"), sigs=["name"])
     fb.method(s, "Mask", "google.protobuf.FieldMask", "Book", http=("post", "/v1/mask", "*"), sigs=["paths"])
@@ -185,6 +187,9 @@ RETRY_CONFIGS = [
         {"name": [{"service": "google.example.rt.v1.Library", "method": "Import"}],
          "retryPolicy": {"retryableStatusCodes": ["ABORTED"]}},
         {"name": [{"service": "google.example.rt.v1.Library"}], "timeout": "99s"},
+        {"name": [{"service": "google.example.rt.v1.Library", "method": "ListShelves"}], "timeout": "5s",
+         "retryPolicy": {"initialBackoff": "0.25s", "maxBackoff": "8s", "backoffMultiplier": 1,
+                         "retryableStatusCodes": ["UNAVAILABLE"]}},
     ]},
     {"methodConfig": [
         {"name": [{"service": "google.example.rt.v1.Other", "method": "GetBook"}], "timeout": "1500000000n",
@@ -236,6 +241,12 @@ def samples_api():
               http=("post", "/v1/{name=shelves/*/books/*}:write", "*"), lro=("Book", "Meta"))
     fb.method(s, "StreamBooks", "GetBookRequest", "Book", sstream=True)
     fb.method(s, "Chat", "GetBookRequest", "Book", cstream=True, sstream=True)
+    # a flattened NESTED field: the client parameter is `name`, the signature key is `book.name`
+    fb.message("RenameBookRequest", [("parent", "string", {"required": True}), ("book", "msg:Book")])
+    fb.method(s, "RenameBook", "RenameBookRequest", "Book", http=("post", "/v1/{parent=shelves/*}/books:rename", "*"),
+              sigs=["parent,book.name"])
+    # an RPC named by a Python keyword: the client method is `import_`, and the sample has to call that
+    fb.method(s, "Import", "GetBookRequest", "Book", http=("post", "/v1/{name=shelves/*/books/*}:import", "*"))
     # a second service on a different host: region tags carry the owning service's host short name
     a = fb.service("Archive", host="libarchive.googleapis.com")
     fb.method(a, "GetRecord", "GetBookRequest", "Book", http=("get", "/v1/{name=records/*}"))
